@@ -227,11 +227,27 @@ def _build_gates(rng, h, w, seq, blk, k, open_ends):
 def gen_problem(rng, tier, open_ends=False):
     h, w = rng.choice(_SHAPES)
     loops = [a for a in _loop.single_loops(h, w) if any(a)]
+    return _gen(rng, h, w, open_ends, loops)
+
+
+def extra_program_problems(rng):
+    """Larger boards for the program correspondence only (nothing is enumerated there): one non-square medium board and two
+    with more than 256 cells (a tall and a wide one); well-formed instances built like the small ones around a random loop
+    (`_loop.random_loop`) with 4 to 12 gates (so two-digit gate numbers occur), black cells closing the gates."""
+    out = []
+    for h, w in _loop.big_shapes(rng):
+        loops = [_loop.random_loop(rng, h, w, rng.choice([0.2, 0.35])) for _ in range(3)]
+        out.append(_gen(rng, h, w, False, loops, k=rng.randint(4, 12)))
+    return out
+
+
+def _gen(rng, h, w, open_ends, loops, k=None):
     cells = [(y, x) for y in range(h) for x in range(w)]
     blk = [[False] * w for _ in range(h)]
     seq = None
     gates = None
-    k = rng.choice([0, 1, 1, 2, 2, 3, 3, 3, 4, 4])
+    if k is None:
+        k = rng.choice([0, 1, 1, 2, 2, 3, 3, 3, 4, 4])
     if loops and rng.random() < 0.85:
         a = rng.choice(loops)
         if rng.random() < 0.7:
